@@ -1,0 +1,85 @@
+//go:build verif
+
+package tally
+
+import (
+	"io"
+	"sync"
+	stdatomic "sync/atomic"
+	"time"
+)
+
+// VerifHooks are schedule points used by the external verification harness.
+// Yield is called between individual atomic operations / lock hand-overs.
+// Lock is called before a blocking lock acquisition with a non-blocking probe
+// of that lock (acquire-and-release); the harness loops on it so that the
+// real acquisition that follows does not block.
+type VerifHooks struct {
+	Yield func(site string)
+	Lock  func(try func() bool, site string)
+}
+
+var verifHooks stdatomic.Pointer[VerifHooks]
+
+// VerifSetHooks installs (or, with nil, removes) the verification hooks.
+func VerifSetHooks(h *VerifHooks) { verifHooks.Store(h) }
+
+func verifYield(site string) {
+	if h := verifHooks.Load(); h != nil && h.Yield != nil {
+		h.Yield(site)
+	}
+}
+
+func verifLock(mu *sync.RWMutex, site string) {
+	if h := verifHooks.Load(); h != nil && h.Lock != nil {
+		h.Lock(func() bool {
+			if mu.TryLock() {
+				mu.Unlock()
+				return true
+			}
+			return false
+		}, site)
+	}
+}
+
+func verifRLock(mu *sync.RWMutex, site string) {
+	if h := verifHooks.Load(); h != nil && h.Lock != nil {
+		h.Lock(func() bool {
+			if mu.TryRLock() {
+				mu.RUnlock()
+				return true
+			}
+			return false
+		}, site)
+	}
+}
+
+// VerifNewRootScope is NewRootScope with an explicit registry shard count
+// (0 = derive from GOMAXPROCS as the public constructor does).
+func VerifNewRootScope(opts ScopeOptions, interval time.Duration, shardCount uint) (Scope, io.Closer) {
+	opts.registryShardCount = shardCount
+	s := newRootScope(opts, interval)
+	return s, s
+}
+
+// VerifNewTestScope is NewTestScope with an explicit registry shard count.
+func VerifNewTestScope(prefix string, tags map[string]string, shardCount uint) TestScope {
+	return newRootScope(ScopeOptions{
+		Prefix:             prefix,
+		Tags:               tags,
+		testScope:          true,
+		registryShardCount: shardCount,
+	}, 0)
+}
+
+// VerifReportOnce runs one report pass (registry report + Flush) on the root
+// scope s, exactly as a tick of the report loop would, ignoring the closed flag.
+func VerifReportOnce(s Scope) { s.(*scope).reportRegistry() }
+
+// VerifReportLoopRun runs what one tick of the report loop runs.
+func VerifReportLoopRun(s Scope) { s.(*scope).reportLoopRun() }
+
+// VerifKeyForPrefixedStringMaps exposes the multi-map key function.
+func VerifKeyForPrefixedStringMaps(prefix string, maps ...map[string]string) string {
+	return keyForPrefixedStringMaps(prefix, maps...)
+}
